@@ -225,6 +225,12 @@ func c20ProcessState() string {
 var c20HouseRegion, c20HouseStyle = &astisub.Region{ID: "house"}, &astisub.Style{ID: "house-style"}
 var c20HouseMeta *astisub.Metadata
 var c20HouseCues *astisub.Subtitles
+var c20HousePristine string
+
+// c20HouseDump: the house objects as they are now (the cue slice with its spare room: cells behind the length count)
+func c20HouseDump() string {
+	return deepDump([]interface{}{c20HouseRegion, c20HouseStyle, c20HouseMeta, c20HouseCues, c20HouseCues.Items[:cap(c20HouseCues.Items)]})
+}
 
 // c20NewHouse: every phase of a round begins with a house layout nobody has touched yet (called before the
 // goroutines of the phase exist)
@@ -235,6 +241,7 @@ func c20NewHouse() {
 	c20HouseCues = astisub.NewSubtitles()
 	c20HouseCues.Items = make([]*astisub.Item, 0, 8) // (as a reader leaves it: room to spare behind the cues)
 	c20HouseCues.Items = append(c20HouseCues.Items, textItem(0, time.Second, "station ident"), textItem(time.Second, 2*time.Second, "previously"))
+	c20HousePristine = c20HouseDump()
 }
 
 // c20SharedOptions: one slice of writer options (with room to spare) that every goroutine passes as it is
@@ -269,6 +276,9 @@ func c20Run(c *fw.Ctx) fw.Outcome {
 		jobs[i].seq = c20Op(jobs[i].kind, jobs[i].seed)
 	}
 	key := fw.Mix(uint64(g), uint64(procs), jobs[0].seed)
+	if now := c20HouseDump(); now != c20HousePristine {
+		return fw.Bad(key, nil, "an operation run alone modified the house objects that its list only refers to: %s", firstDiff(c20HousePristine, now))
+	}
 	// the concurrent run: released together by a barrier, in randomised start order
 	c20NewHouse() // (as untouched as it was before the sequential run)
 	order := r.Perm(g)
@@ -295,6 +305,9 @@ func c20Run(c *fw.Ctx) fw.Outcome {
 	ready.Wait()
 	close(start)
 	done.Wait()
+	if now := c20HouseDump(); now != c20HousePristine {
+		return fw.Bad(key, nil, "the concurrent operations modified the house objects that their lists only refer to: %s", firstDiff(c20HousePristine, now))
+	}
 	// a moment for anything a call may have left running to show itself (observing nothing proves nothing; a read
 	// observed after the call returned is a fact)
 	runtime.Gosched()
@@ -348,7 +361,7 @@ func init() {
 	fw.Register(&fw.Property{
 		ID:          "C20",
 		Level:       "exploration",
-		Rule:        "case = one round: 2..32 goroutines, each owning its inputs (rebuilt from a seed), run one of 12 operation kinds (6 readers incl. teletext streams with different national subsets and X/28-M/29 packets, 5 writers - TTML also with its indentation option -, transformation sequences over Add/Fragment/Unfragment/Order/Merge/Optimize/ForceDuration/linear correction/RemoveStyling incl. padding a list and then stripping and editing the padded list), a third of the write operations on lists that refer to one house region and style which all of them only read (fresh and untouched at the start of each phase), released together by a barrier in randomised order under GOMAXPROCS 2, 4 or 16. The monitor binary is built with -race: any race report fails the run (witness = the report). Every concurrent result digest must equal the digest of the same operation run alone beforehand; the package state digest (verif hook) and the data-segment digests (every package-level variable of the library as linked into the monitor: byte for byte, and followed through slices, strings, pointers, structs and arrays with the binary's debug information) must be unchanged at the end. A round counts only if at least two operations really overlapped (begin/end ticks); the evidence lists the kind x kind pairs observed overlapping (distinct_features). distinct_nontrivial = distinct rounds with overlap.",
+		Rule:        "case = one round: 2..32 goroutines, each owning its inputs (rebuilt from a seed), run one of 12 operation kinds (6 readers incl. teletext streams with different national subsets and X/28-M/29 packets, 5 writers - TTML also with its indentation option -, transformation sequences over Add/Fragment/Unfragment/Order/Merge/Optimize/ForceDuration/linear correction/RemoveStyling incl. padding a list and then stripping and editing the padded list), a third of the write operations on lists that refer to one house region and style which all of them only read (fresh and untouched at the start of each phase, compared with a deep dump at its end; some of these lists also share one metadata object and are built by merging house cues in front), released together by a barrier in randomised order under GOMAXPROCS 2, 4 or 16. The monitor binary is built with -race: any race report fails the run (witness = the report). Every concurrent result digest must equal the digest of the same operation run alone beforehand; the package state digest (verif hook) and the data-segment digests (every package-level variable of the library as linked into the monitor: byte for byte, and followed through slices, strings, pointers, structs and arrays with the binary's debug information) must be unchanged at the end. A round counts only if at least two operations really overlapped (begin/end ticks); the evidence lists the kind x kind pairs observed overlapping (distinct_features). distinct_nontrivial = distinct rounds with overlap.",
 		Assumptions: []string{"the race detector reports only accesses that happened in these rounds", "the injectable clock is set once before the rounds (it is the documented exception)"},
 		Cases:       func(tier string) int64 { return tierN(tier, 240, 20000) },
 		Workers:     4,
